@@ -24,6 +24,15 @@ pub struct Case {
     pub blocker_len: u64,
     pub extra_low_areas: u64,
     pub ops: Vec<Op>,
+    /// Some(off): the very first call of the run is brk(base + off) instead of brk(0); the base is learnt
+    /// from an identically built twin machine (only to choose the argument — the verdict uses the area
+    /// the call itself created)
+    #[serde(default)]
+    pub first_set: Option<u64>,
+    /// empty (zero-length) areas created beforehand at these addresses: an empty area occupies no byte and
+    /// may not get in the heap's way
+    #[serde(default)]
+    pub empty_areas: Vec<u64>,
 }
 
 pub struct C13;
@@ -93,7 +102,9 @@ impl Property for C13 {
             };
             ops.push(op);
         }
-        Case { code_high, blocker_pages, blocker_len, extra_low_areas, ops }
+        let first_set = if t.below(5) == 0 { Some(t.pick(&[0u64, 1, 0x800, 0x1000, 0x1800, 0x3001, 0x10000])) } else { None };
+        let empty_areas = if t.below(5) == 0 { vec![t.pick(&[0x2000u64, 0x3000, 0x7000_1000, 0x2800])] } else { vec![] };
+        Case { code_high, blocker_pages, blocker_len, extra_low_areas, ops, first_set, empty_areas }
     }
 
     fn exec(&mut self, c: &Case) -> CaseOut {
@@ -110,6 +121,9 @@ impl Property for C13 {
         init_regs(&mut ax, 3);
         for k in 0..c.extra_low_areas {
             let _ = ax.mem_init_zero(0x2000 + 0x3000 * k, 0x800);
+        }
+        for a in &c.empty_areas {
+            let _ = ax.mem_init_zero(*a, 0);
         }
         if let Err(e) = ax.handle_syscalls(vec![Syscall::Brk]) {
             return CaseOut::fail("HARNESS-FAULT|C13-handle".into(), e.to_string());
@@ -134,6 +148,53 @@ impl Property for C13 {
                 Api::Panic(p) => Api::Panic(p),
             }
         };
+        if let Some(off) = c.first_set {
+            // the twin tells where this layout puts the heap
+            let twin_base: Option<u64> = (|| {
+                let mut tw = Axecutor::new(&CODE, code_at, code_at).ok()?;
+                init_regs(&mut tw, 3);
+                for k in 0..c.extra_low_areas {
+                    let _ = tw.mem_init_zero(0x2000 + 0x3000 * k, 0x800);
+                }
+                for a in &c.empty_areas {
+                    let _ = tw.mem_init_zero(*a, 0);
+                }
+                tw.handle_syscalls(vec![Syscall::Brk]).ok()?;
+                match syscall(&mut tw, 0) {
+                    Api::Ok(v) => tw.verif_area_meta().iter().find(|m| m.0 < v && v - m.0 <= m.1).map(|m| m.0),
+                    _ => None,
+                }
+            })();
+            a_call_failed.set(false);
+            if let Some(tb) = twin_base {
+                let p = tb + off;
+                let before_areas: Vec<u64> = ax.verif_area_meta().iter().map(|m| m.0).collect();
+                let r = syscall(&mut ax, p);
+                if let Api::Panic(pi) = &r {
+                    fail(&mut out, &format!("set|{}", pi.signature()), format!("first call brk({:#x}) crashed: {}", p, r.short()));
+                    return out;
+                }
+                // the heap is the area this call created
+                let created: Vec<(u64, u64)> = ax.verif_area_meta().iter().filter(|m| !before_areas.contains(&m.0) && m.1 > 0).map(|m| (m.0, m.1)).collect();
+                if let [(rb, _)] = created[..] {
+                    let in_the_way = ax.verif_area_meta().iter().any(|(st, _len, _, _)| *st > rb && *st < p);
+                    if p >= rb && !in_the_way {
+                        classes.push("first-call-moves-the-break");
+                        match r {
+                            Api::Ok(v) if v == p => {
+                                base = Some(rb);
+                                cur = p - rb;
+                                known.resize(cur as usize, None);
+                            }
+                            other => {
+                                fail(&mut out, "set|first-call-did-not-move-the-break", format!("the first call of the run, brk({:#x}) with heap base {:#x} and nothing in the way, answered {} instead of returning the new break", p, rb, other.short()));
+                                return out;
+                            }
+                        }
+                    }
+                }
+            }
+        }
         for (n, op) in c.ops.iter().enumerate() {
             // whether a machine can go on after a failed step is not this property's business: if an
             // earlier call of this history failed and the machine now counts as finished, the history ends
@@ -184,7 +245,8 @@ impl Property for C13 {
                     let b = base.unwrap();
                     let p = b + off;
                     // in the way of the growth: any other area that starts in [current break, p)
-                    let collides = ax.verif_area_meta().iter().any(|(st, len, _, _)| *len > 0 && *st >= b + cur && *st < p);
+                    // (an empty area there occupies no byte; whether it blocks the growth is left open, as in C10)
+                    let collides = ax.verif_area_meta().iter().any(|(st, _len, _, _)| *st != b && *st >= b + cur && *st < p);
                     let _ = &blocker;
                     let r = syscall(&mut ax, p);
                     if let Api::Panic(pi) = &r {
@@ -285,7 +347,7 @@ impl Property for C13 {
     }
 
     fn rule(&self) -> String {
-        "cases: histories of 2–29 operations — brk(0), brk(base+off) with off from {0, ±1, page multiples, odd sizes, up to 1 MiB, shrink below, half}, guest byte stores and loads (MOV executed with step()) at the first byte, last byte and random offsets of the heap — under layouts with the code low or high, 0–2 extra low areas and an optional blocker area 1–64 pages above the heap base; break model: base = start of the heap area found at the first brk(0); brk(p≥base) with nothing in the way returns p and brk(0) then returns p; every byte in [base, break) is guest-readable/writable and keeps its value until the break goes below it; growth into an occupied range may fail but must not overlap; areas stay pairwise disjoint; non-trivial = a grow after a store and a shrink followed by a regrow; distinct by hash(history)".into()
+        "cases: histories of 2–29 operations (1/5 of them opened by brk(base+off) as the very first call, 1/5 with an empty area at a likely heap address) — brk(0), brk(base+off) with off from {0, ±1, page multiples, odd sizes, up to 1 MiB, shrink below, half}, guest byte stores and loads (MOV executed with step()) at the first byte, last byte and random offsets of the heap — under layouts with the code low or high, 0–2 extra low areas and an optional blocker area 1–64 pages above the heap base; break model: base = start of the heap area found at the first brk(0); brk(p≥base) with nothing in the way returns p and brk(0) then returns p; every byte in [base, break) is guest-readable/writable and keeps its value until the break goes below it; growth into an occupied range may fail but must not overlap; areas stay pairwise disjoint; non-trivial = a grow after a store and a shrink followed by a regrow; distinct by hash(history)".into()
     }
     fn required_classes(&self, _tier: Tier) -> Vec<String> {
         ["grow-after-store", "shrink-regrow", "load-of-known-byte", "growth-into-occupied-range"].iter().map(|s| s.to_string()).collect()
